@@ -233,10 +233,13 @@ def gen(run):
 def public_path(run):
     """payloads through real files: xlsx -> Parser (safety on/off) -> write_translation -> Executor(class_file)"""
     rng = random.Random(run.seed + 7)
-    texts = [p for p in PAYLOADS if '\n' not in p and not p.startswith('=')] + ["it's", 'a"b', 'back\\slash', 'q{0}', '100%']
+    texts = [p for p in PAYLOADS if '\n' not in p and not p.startswith('=')] + ["it's", 'a"b', 'back\\slash', 'q{0}', '100%',
+                                                                                "=1+1", "=__e2p_canary__()", '="x"&"y"']     # text cells that look like formulas
     rows = {}
     for i, t in enumerate(texts):
-        rows[(0, i)] = t
+        rows[(0, i)] = repo.AsText(t) if t.startswith('=') else t
+        if t.startswith('='):
+            continue
         if '"' not in t:
             rows[(1, i)] = '="' + t + '"'
     x = os.path.join(run.scratch, 'c07.xlsx')
